@@ -85,6 +85,7 @@ where
 			);
 		};
 
+		vhit!(PARSER_NEW);
 		Parser { parser, read_state }
 	}
 
@@ -150,6 +151,7 @@ where
 
 		match read_state.reader.read(&mut read_state.bouncer[..]) {
 			Ok(read_len) if read_len <= buffer_size => {
+				vhit!(READ_HANDLER_OK);
 				// SAFETY: copy_nonoverlapping is VERY dangerous, so let's walk
 				// through its 4 requirements:
 				//
@@ -181,10 +183,12 @@ where
 				READ_SUCCESS
 			}
 			Ok(_) => {
+				vhit!(READ_HANDLER_OVER_REPORT);
 				read_state.error = Some(io::Error::new(io::ErrorKind::Other, "misbehaving reader"));
 				READ_FAILURE
 			}
 			Err(err) => {
+				vhit!(READ_HANDLER_ERROR);
 				read_state.error = Some(err);
 				READ_FAILURE
 			}
@@ -197,6 +201,7 @@ where
 	R: Read,
 {
 	fn drop(&mut self) {
+		vhit!(PARSER_DROP);
 		// SAFETY: Parser::new panics if libyaml fails to initialize the parser,
 		// so we know it's logically valid here. self.read_state originally came
 		// from a Box, so is safe to deallocate that way. We logically destroy
@@ -219,6 +224,7 @@ impl Event {
 		// simply drop the MaybeUninit when we return the error.
 		unsafe {
 			if yaml_parser_parse(parser, event.as_mut_ptr()).ok {
+				vhit!(EVENT_NEW);
 				Ok(Event(event.assume_init()))
 			} else {
 				Err(ParserError::new(parser))
@@ -241,6 +247,7 @@ impl Event {
 
 impl Drop for Event {
 	fn drop(&mut self) {
+		vhit!(EVENT_DROP);
 		// SAFETY: Event::parse_next returns an error if libyaml fails to
 		// initialize the event, so we know it's logically valid here.
 		unsafe {
